@@ -277,6 +277,7 @@ func (w *world) runScenario(sc *Scenario) {
 		rangeOf := map[int]int{} // block id -> serial number of the range it was last synced in
 		rangeSerial := 0
 		knownMissed := map[string]bool{}
+		regsReported := false
 		hasDec := false
 		var lastHead *ethfake.Block
 		trunc := func(oi int) *Scenario {
@@ -518,6 +519,49 @@ func (w *world) runScenario(sc *Scenario) {
 							}
 						}
 					}
+				}
+			}
+			// C15 for the two-processor configuration: the registration table is exactly the canonical
+			// chain's admissible registrations of [sync start, k]
+			{
+				var wantRegs []string
+				for n := int64(effStart); n <= k; n++ {
+					for li, it := range rig.ItemsOf(branch[n]) {
+						if it.Ev != nil && admissibleReg(sc, it.Ev) {
+							wantRegs = append(wantRegs, fmt.Sprintf("%d/%d/%d/%x/%d", n, li, it.Ev.Eon, identOf(it.Ev, defs[it.Ev.Def]), it.Ev.Exp))
+						}
+					}
+				}
+				var gotRegs []string
+				before := false
+				for _, r := range syncrig.SortRows(postRows) {
+					gotRegs = append(gotRegs, fmt.Sprintf("%d/%d/%d/%x/%d", r.Block, r.Log, r.Eon, r.Ident, r.Exp))
+					if r.Block < int64(effStart) {
+						before = true
+					}
+					if !bytes.Equal(r.BHash, branch[min(r.Block, int64(len(branch)-1))].Hash.Bytes()) {
+						gotRegs[len(gotRegs)-1] += "/abandoned-block"
+					}
+				}
+				if strings.Join(gotRegs, ",") != strings.Join(wantRegs, ",") && !regsReported {
+					regsReported = true
+					key := "C16:registrations-differ-from-canonical"
+					if before {
+						key = d9Key
+					}
+					run.Violate(vh.Violation{Key: key, What: "position on the canonical chain but the registration table differs from the canonical chain's admissible registrations",
+						Case: trunc(oi), Observed: gotRegs, Expected: wantRegs})
+					if !before {
+						fin.clean = false
+					}
+				}
+			}
+			// rollback (C16_rollback_unfires): after a Sync that rolled back, no registration and no fired
+			// row of a block above the rollback target that is not on the new branch survives
+			for _, f := range postFired {
+				if f.Block >= int64(len(branch)) || !bytes.Equal(f.BHash, branch[f.Block].Hash.Bytes()) {
+					run.Violate(vh.Violation{Key: "C16:fired-row-of-abandoned-block", What: "a fired row of an abandoned block survived the rollback", Case: trunc(oi), Observed: f})
+					fin.clean = false
 				}
 			}
 			got := map[string]firedRow{}
@@ -877,6 +921,42 @@ func forcedScenarios() []*Scenario {
 	}
 	sc.Runs = []Run{{Range: 1, Ops: []Op{{Head: 3}, {Head: 4}, {Head: 5}, {Head: 7}}}, {Range: 10_000, Ops: []Op{{Head: 3}, {Head: 4}, {Head: 5}, {Head: 7}}}}
 	out = append(out, sc)
+	// forced reorganisations for C16_rollback_unfires: depths 1..3 below a fired trigger, the fork
+	// removes the log (un-fire), keeps it at another position, or re-registers the trigger itself
+	for depth := 1; depth <= 3; depth++ {
+		for variant := 0; variant < 3; variant++ {
+			sc := &Scenario{Start: 0, Depth: 3, Defs: defs, Note: fmt.Sprintf("rollback un-fires: fork %d below the head, variant %d", depth, variant)}
+			sc.Blocks = []syncrig.BlockSpec{
+				{Parent: 0, Items: []syncrig.Item{reg(1, 0, 100)}}, // 1
+				{Parent: 1, Items: []syncrig.Item{reg(2, 1, 100)}}, // 2
+				{Parent: 2, Count: 1},                              // 3
+				{Parent: 3, Items: []syncrig.Item{lg(1, 0, 0)}},    // 4: fires trigger 1
+				{Parent: 4, Items: []syncrig.Item{lg(2, 1, 9)}},    // 5: fires trigger 2
+				{Parent: 5, Count: 1},                              // 6
+			}
+			forkParent := 6 - depth
+			var branchItems [][]syncrig.Item
+			switch variant {
+			case 0: // the new branch has no logs
+				branchItems = [][]syncrig.Item{nil, nil, nil, nil}
+			case 1: // the logs come back later and in the other order
+				branchItems = [][]syncrig.Item{nil, {lg(2, 1, 9)}, {lg(1, 0, 0)}, nil}
+			default: // another trigger is registered and fires on the new branch
+				branchItems = [][]syncrig.Item{{reg(3, 0, 100)}, {lg(1, 0, 0)}, nil, nil}
+			}
+			parent := forkParent
+			var heads []Op
+			for i := 0; i < depth+1; i++ {
+				sc.Blocks = append(sc.Blocks, syncrig.BlockSpec{Parent: parent, Salt: uint64(10 + variant), Items: branchItems[i]})
+				parent = 6 + i + 1
+			}
+			for _, h := range []int{3, 4, 5, 6, parent} {
+				heads = append(heads, Op{Head: h})
+			}
+			sc.Runs = []Run{{Range: 1, Ops: heads}, {Range: 1, Ops: []Op{{Head: parent}}}}
+			out = append(out, sc)
+		}
+	}
 	return out
 }
 
